@@ -230,7 +230,7 @@ META = {
                    "distinct argument term), so y'_i = y_i + f(x_i) [or f(x_i/(x_last-x_first))], zero-trend identity "
                    "and additivity hold for every pure callable. Normalisation: min/max are located by NumPy's own "
                    "reductions (each comparison forks), claims are non-linear but tiny.",
-    "bounds": {"quick": "series of 2..6 points (normalize: 2..4, incl. after scale_x by any non-zero factor)", "thorough": "series of 2..10 points (normalize: 2..5)"},
+    "bounds": {"quick": "series of 2..6 points (normalize: 2..4, incl. after scale_x by any non-zero factor; normalize_x/_y from arbitrary reshaped / other-range / gridded states of 2..3 (+2) points)", "thorough": "series of 2..10 points (normalize: 2..5)"},
     "outside": ["longer series", "impure trend callables", "float rounding"],
     "assumptions": ["x strictly increasing", "normalize: array not constant and min_val < max_val (documented use)",
                     "scale != 0"],
